@@ -997,6 +997,16 @@ def stats_body(k, nbins, nboot, nested, multinom=False, thetas=False, full_len='
                                  **tkw)
         JHi = np.dot(Jn, _inv_exact(Hn))
         _eqv(env, 'LRT_adjust', adj, m / sum(JHi[a, a] for a in range(m)))
+        if not multinom:
+            # the same call with p0 given as an ndarray: same value, and the caller's array is left untouched
+            p_arr = np.array(list(p), dtype=object if env.symbolic else float)
+            p_keep = list(p_arr)
+            _clear_cache()
+            adj2 = Godambe.LRT_adjust(model, [10], boots, p_arr, P.data, list(nested), multinom=multinom, eps=P.eps,
+                                      **tkw)
+            _eqv(env, 'LRT_adjust(ndarray p0)', adj2, m / sum(JHi[a, a] for a in range(m)))
+            for i_ in range(len(p_keep)):
+                _eqv(env, 'LRT_adjust leaves p0[%d] unchanged' % i_, p_arr[i_], p_keep[i_])
         if not thetas:
             fullv = [env.real('f%d' % j, lo=0, lo_open=True, hi=PMAX) for j in range(k)]
             fp = [fullv[idx] for idx in nested]
